@@ -188,7 +188,8 @@ PROPS["C07"] = {
             "everything the peer controls; one case in six uses small body limits, both limit actions and rules that move the limits / "
             "switch body access or the body processor in any phase; one case in six has SecIgnoreRuleCompilationErrors On with 1-3 rules the "
             "compiler refuses (disruptive chain member, unknown operator / transformation / action, bad pattern, chain left open), each "
-            "followed by a directive naming the refused id again; one case in four also serves the request through the library's net/http "
+            "followed by a directive naming the refused id again; under the limit dynamics a third of the scripts feed body bytes before the headers "
+            "phases (and more through readers afterwards) and read a body reader obtained early a few bytes at a time between the other calls; one case in four also serves the request through the library's net/http "
             "middleware (twice), half of them with an always-matching rule carrying every disruptive action and usable / unusable status; bodies arrive in pieces through the slice and the reader entry "
             "points; anomalous scripts duplicate, drop, swap and move calls, add extra body writes and phase calls anywhere and keep using "
             "the handle after Close; oracle = recover() around NewWAF and every call, NewWAF "
